@@ -87,6 +87,7 @@ def noOverdue (s : State) (t : Int) : Bool :=
 
 /-- C23: the immutability rules of an edit (`cur` → `new`, signed by `signer`, `wasWaiting`) -/
 def editOk (cur new : Val) (signer : Addr) (wasWaiting : Bool) : List String :=
+  (if signerOk cur.addr cur.output signer then [] else ["edit-by-unauthorized-signer"]) ++
   (if new.tokens < cur.tokens then ["edit-lowered-stake"] else []) ++
   (if new.addr ≠ cur.addr ∨ new.pk ≠ cur.pk ∨ new.jailed ≠ cur.jailed ∨ new.status ≠ cur.status then ["edit-changed-identity"] else []) ++
   (if new.output ≠ cur.output ∧ cur.output ≠ [] ∧ signer ≠ cur.output then ["edit-output-changed-by-other-signer"] else []) ++
